@@ -809,7 +809,7 @@ def shrink(case, sig):
 C08_KINDS = ("segments-exceed-capacity", "resident-exceeds-capacity", "free-space-mismatch", "segments-exceed-accounted",
              "granted-early", "granted-over-existing", "oversize-not-refused", "nofit-not-wait")
 C09_KINDS = ("granted-missing-segment", "content-mismatch", "readable-before-close", "reader-unprotected",
-             "delayed-purge-lost", "never-granted")
+             "delayed-purge-lost", "never-granted", "request-never-answered")
 
 
 def random_cfg(rng, maxops, maxkeys, profile):
